@@ -247,6 +247,11 @@ func contentLines(items []Item, size string, salt int) []string {
 				lines = append(lines, padding(4600, salt))
 			case "huge":
 				lines = append(lines, padding(9000, salt))
+			case "repeat":
+				// 12 KB of one short line over and over: deflate shrinks it several hundred times
+				for k := 0; k < 400; k++ {
+					lines = append(lines, "% filler filler filler filler\n")
+				}
 			}
 		}
 	}
